@@ -176,7 +176,7 @@ func prepareNumber(input string) (number, unit string) {
 			continue
 		}
 		// unit remains
-		return n.String(), strings.TrimSuffix(input[i:], string(sp))
+		return n.String(), strings.TrimRight(input[i:], string(sp))
 	}
 	return n.String(), ""
 }
